@@ -75,6 +75,14 @@ package log
 
 //@ iface Logger.GetLevel
 //@   pure_const
+// (what makes this a function of the logger: every implementation in the repository is the accessor of
+// the embedded LoggerBase, which returns the Level field, and no instruction of the repository ever
+// stores to that field -- it keeps the value plugin construction gave it)
+//@ immutable[C01,C10] LoggerBase.Level via Logger.GetLevel
+//@ func (*LoggerBase).GetLevel
+//@   requires c != nil
+//@   modifies nothing
+//@   ensures[C01,C10:level-of-the-logger] result == c.Level
 
 // (the logger may return the event to the pool: the caller must not touch it afterwards)
 //@ iface Logger.Append
@@ -1583,6 +1591,14 @@ package log
 //@   ensures[C15:registered-name] has(timeRotationRegistration, s) ==> result0 == timeRotationRegistration[s] && result1 == nil
 //@   ensures[C15:unknown-name-is-an-error] !has(timeRotationRegistration, s) ==> result1 != nil
 
+// a level registered by the application is known by its upper-cased name from then on
+//@ func RegisterLevel
+//@   requires levelRegistry != nil
+//@   modifies map(levelRegistry)
+//@   nopanic[C01]
+//@   ensures[C01:registered-under-its-upper-cased-name] result.code == code && result.name == str_upper(name) && has(levelRegistry, str_upper(name)) && levelRegistry[str_upper(name)] == result
+//@   ensures[C01:other-levels-kept] forall n string :: n != str_upper(name) ==> has(levelRegistry, n) == old(has(levelRegistry, n)) && levelRegistry[n] == old(levelRegistry[n])
+
 //@ func ParseLevelRange
 //@   requires levelRegistry != nil
 //@   modifies nothing
@@ -1591,6 +1607,8 @@ package log
 //@   ensures[C15:names-must-be-registered] result1 == nil && str_trim(s) != "" ==> has(levelRegistry, str_upper(split_piece(str_trim(s), '~', 0))) && result0.MinLevel == levelRegistry[str_upper(split_piece(str_trim(s), '~', 0))]
 //@   ensures[C15:unknown-lower-bound-is-an-error] str_trim(s) != "" && !has(levelRegistry, str_upper(split_piece(str_trim(s), '~', 0))) ==> result1 != nil
 //@   ensures[C15:unknown-upper-bound-is-an-error] str_trim(s) != "" && split_count(str_trim(s), '~') == 2 && !has(levelRegistry, str_upper(split_piece(str_trim(s), '~', 1))) ==> result1 != nil
+//@   ensures[C01,C15:neither-MIN-nor-MIN~MAX-is-an-error] split_count(str_trim(s), '~') > 2 ==> result1 != nil
+//@   replay s = s
 //@   ensures[C15:upper-bound] result1 == nil && str_trim(s) != "" ==> result0.MaxLevel == (split_count(str_trim(s), '~') == 2 ? levelRegistry[str_upper(split_piece(str_trim(s), '~', 1))] : MaxLevel)
 
 // ---- C15: struct-tag lookup ("name,default=...") ------------------------------------------------------------
